@@ -185,6 +185,10 @@ FUNCS = [
     ("C12", "dataiter/list_of_dicts.py", "ListOfDicts.write_json", [], "ListOfDicts_write_json"),
     ("C12", "dataiter/list_of_dicts.py", "ListOfDicts.write_pickle", [], "ListOfDicts_write_pickle"),
     ("C12", "dataiter/list_of_dicts.py", "ListOfDicts.read_pickle", [], "ListOfDicts_read_pickle"),
+    ("C04", "dataiter/data_frame.py", "DataFrame.aggregate", [], "DataFrame_aggregate"),
+    ("C04", "dataiter/data_frame.py", "DataFrame.split", [], "DataFrame_split"),
+    ("C04", "dataiter/data_frame.py", "DataFrame.modify", [], "DataFrame_modify"),
+    ("C03", "dataiter/data_frame.py", "DataFrame.sort", [], "DataFrame_sort"),
     ("C11", "dataiter/vector.py", "Vector.sort", [], "Vector_sort"),
     ("C11", "dataiter/vector.py", "Vector.rank", [], "Vector_rank"),
     ("C11", "dataiter/vector.py", "Vector.unique", [], "Vector_unique"),
